@@ -327,7 +327,7 @@ DEC_LITERAL = _re.compile(rb"^([+-]?)([0-9]+)(?:\.([0-9]+))?(?:[eE]([+-]?)([0-9]
 JSON_NUMBER = _re.compile(rb"^-?(0|[1-9][0-9]*)(\.[0-9]+)?([eE][+-]?[0-9]+)?$")
 HEX_LITERAL = _re.compile(rb"^(-?)0[xX]([0-9a-fA-F]+)(?:\.([0-9a-fA-F]*))?(?:[pP]([+-]?)([0-9a-fA-F]+))?$")
 MANTISSA_EDGES = [0, 1, 9, 10, 15, 255, 2 ** 31, 2 ** 32, 2 ** 53 + 1, 2 ** 63 - 1, 2 ** 63, 2 ** 63 + 1, 2 ** 64 - 1, 2 ** 64, 2 ** 64 + 1, 10 ** 19, 10 ** 20 - 1,
-                  2 ** 72, 2 ** 128 - 1, 10 ** 38 + 7]
+                  2 ** 72, 2 ** 128 - 1, 10 ** 38 + 7, 2 ** 176, 2 ** 184 - 1, 2 ** 184, 2 ** 191, 2 ** 192 - 1, 2 ** 192, 2 ** 200, 2 ** 2040 - 1, 2 ** 2040, 2 ** 2048 - 1, 2 ** 2048]
 EXPONENT_EDGES = [0, 1, 2, 3, 5, 9, 10, 17, 18, 19, 20, 23, 24, 99, 255, 256, 308, 324, 400, 4000, 65535, 65536, 2 ** 31 - 1, 2 ** 31, 2 ** 32, 10 ** 15, 2 ** 62]
 
 
